@@ -1,4 +1,4 @@
-"""C11 OSCORE protection: structural clauses decided on the syntax tree of oscore.py."""
+"""C11 OSCORE protection: structural clauses decided on the syntax tree of oscore.py, and (C11.i) of the users of protect / unprotect."""
 
 import ast
 
@@ -35,7 +35,11 @@ R = Rules(
         "equal and the length of what is decrypted was checked, decrypt failures always propagate, every return is dominated by "
         "decrypt.  C11.g: for every concrete algorithm class the decrypt function it resolves to (own, inherited, pulled up with a per-class cipher hook) maps the "
         "library's InvalidTag to ProtectionInvalid, wherever the protecting try statement sits.  C11.h: request identifiers keep kid / partial IV verbatim; every "
-        "bounded field cut out of the option is preceded by a check that the option is long enough.  Not decided: cryptographic "
+        "bounded field cut out of the option is preceded by a check that the option is long enough.  C11.i (decided on the modules as written, "
+        "kit.FlowRunner: local helpers -- nested defs, lambdas, functools.partial, methods through self -- are executed with Python's binding rules, a default "
+        "argument holding the value of the definition time): on every path of every user of protect / unprotect (the OSCORE transport, the site wrapper) a "
+        "response or notification is unprotected with the identifiers returned by the very protect call whose outer message was sent to obtain it, and a "
+        "response is protected with the identifiers obtained by unprotecting the request of the pipe it is added to.  Not decided: cryptographic "
         "strength, value-level equality of the round trip, implicit flows through branch conditions, callees of "
         "unprotect other than _extract_encrypted0 (their escape sets are listed as notes only), the "
         "deterministic-request override of _get_sender_key.  Assumed by the map model: the values of COSE header maps are never None."
@@ -2082,6 +2086,312 @@ def h_fields(ctx):
     ctx.floor("length-prefixed fields in _uncompress", len(Rr["bounded_fields"]), 2)
 
 
+# ---------------------------------------------------------------------------
+# C11.i  request/response binding at the users of protect / unprotect
+
+PAIRING = ("protect", "unprotect")
+
+
+def _is_method_call(v, names):
+    return isinstance(v, ast.Call) and isinstance(v.func, ast.Attribute) and v.func.attr in names
+
+
+def _is_super_recv(call):
+    r = call.func.value
+    return isinstance(r, ast.Call) and isinstance(r.func, ast.Name) and r.func.id == "super"
+
+
+def _touches(rm, fnode, memo, stack=()):
+    """Does the function (with everything nested in it, and the helpers of its module it calls by name or through self)
+    call `.protect(...)` / `.unprotect(...)` on a security context (anything but super())?"""
+    k = id(fnode)
+    if k in memo:
+        return memo[k]
+    if k in stack:
+        return False
+    out = False
+    for n in ast.walk(fnode):
+        if not isinstance(n, ast.Call):
+            continue
+        if _is_method_call(n, PAIRING) and not _is_super_recv(n):
+            out = True
+            break
+        callee = None
+        if isinstance(n.func, ast.Name) and n.func.id in rm.funcs:
+            callee = rm.funcs[n.func.id]
+        elif isinstance(n.func, ast.Attribute) and isinstance(n.func.value, ast.Name) and n.func.value.id in ("self", "cls"):
+            callee = next((ms[n.func.attr] for _, ms, _ in rm.classes.values() if n.func.attr in ms), None)
+        if callee is not None and callee.node is not fnode and _touches(rm, callee.node, memo, stack + (k,)):
+            out = True
+            break
+    memo[k] = out
+    return out
+
+
+def _ev_arg(call, names, i):
+    """The i-th parameter (receiver not counted) of an evaluated method call, given positionally or by keyword; None when absent."""
+    if any(isinstance(a, ast.Starred) for a in call.args) or any(kw.arg is None for kw in call.keywords):
+        raise AnalysisError("C11.i: cannot bind the arguments of `%s` (* / **)" % kit.txt(call)[-80:])
+    if i < len(call.args):
+        return call.args[i]
+    return next((kw.value for kw in call.keywords if kw.arg == names[i]), None)
+
+
+def _root_name(v):
+    while True:
+        if isinstance(v, (ast.Await, ast.Starred)):
+            v = v.value
+        elif isinstance(v, (ast.Attribute, ast.Subscript)):
+            v = v.value
+        elif isinstance(v, ast.Call) and isinstance(v.func, ast.Attribute):
+            v = v.func.value
+        elif isinstance(v, ast.Name):
+            return v.id
+        else:
+            return None
+
+
+def _component(v, i):
+    """K when v is component i of the pair returned by the call K (protect / unprotect return (message, identifiers))."""
+    while isinstance(v, ast.Await):
+        v = v.value
+    if isinstance(v, ast.Subscript) and isinstance(v.slice, ast.Constant) and v.slice.value == i:
+        k = v.value
+        while isinstance(k, ast.Await):
+            k = k.value
+        if _is_method_call(k, PAIRING):
+            return k
+    return None
+
+
+def _message_of(v):
+    """K when v is the message returned by the call K, possibly behind attribute reads / method calls on it (`m.copy(...)`)."""
+    while True:
+        k = _component(v, 0)
+        if k is not None:
+            return k
+        if isinstance(v, ast.Await):
+            v = v.value
+        elif isinstance(v, ast.Attribute):
+            v = v.value
+        elif isinstance(v, ast.Call) and isinstance(v.func, ast.Attribute):
+            v = v.func.value
+        else:
+            return None
+
+
+def _request_behind(v):
+    """The protect call whose outer message was handed to the call that produced the object `v` is read from: `v` is peeled
+    (await, attribute reads, element / iteration reads, method calls on it such as __aiter__ / __anext__, aiter(x) / anext(x)) down to
+    a call one of whose arguments is the message component of a protect call.  (None, root name) when there is no such call."""
+    while True:
+        if isinstance(v, (ast.Await, ast.Starred)):
+            v = v.value
+        elif isinstance(v, (ast.Attribute, ast.Subscript)):
+            v = v.value
+        elif isinstance(v, ast.Call):
+            for a in list(v.args) + [kw.value for kw in v.keywords]:
+                k = _message_of(a)
+                if k is not None and k.func.attr == "protect":
+                    return k, None
+            if isinstance(v.func, ast.Attribute):
+                v = v.func.value
+            elif isinstance(v.func, ast.Name) and v.func.id in ("aiter", "anext", "iter", "next") and v.args:
+                v = v.args[0]
+            else:
+                return None, None
+        elif isinstance(v, ast.Name):
+            return None, v.id
+        else:
+            return None, None
+
+
+def _short(v, n=70):
+    t = kit.txt(v)
+    return t if len(t) <= n else "..." + t[-n:]
+
+
+def _raw_call(fi, call):
+    """The call as written (the evaluated call carries the position of its source)."""
+    pos = (getattr(call, "lineno", None), getattr(call, "col_offset", None))
+    top = fi
+    while top.parent is not None:
+        top = top.parent
+    for n in ast.walk(top.node):
+        if isinstance(n, ast.Call) and (n.lineno, n.col_offset) == pos:
+            return n
+    return None
+
+
+@R.clause("C11.i", "every response / notification is unprotected with the identifiers of the request it was received for, every response is protected with "
+                   "the identifiers of the request it answers (users of protect / unprotect: the OSCORE transport and the site wrapper)")
+def i_binding(ctx):
+    """Added after an independently written breaking change hidden in a clean-up: the client transport's three copies of "unprotect
+    the response" were folded into a local helper that took the request identifiers as a *default argument*, which Python evaluates
+    when the `def` is executed -- before the Echo retry (RFC 8613 B.1.2) protects and sends the request again.  Everything received
+    for the second request was then verified against the first request's identifiers, so no valid response verifies any more.
+
+    Necessary condition (property: "a protected response verifies only together with the identifiers of the request it answers"): the
+    two ends must hand protect / unprotect the identifiers of *that* request.  protect returns (outer message, identifiers) and
+    unprotect returns (inner message, identifiers); on every path of every function of the package that calls them on a context:
+      (client) a call X.unprotect(R, I) with identifiers: I is the identifiers component of a protect call K, and R was read from
+               (awaited from / iterated out of) the object returned by a call that was handed K's outer message -- the same K;
+      (server) a call X.protect(M, I) with identifiers: I is the identifiers component of an unprotect call U made without
+               identifiers (a request), and when the result is handed to Q.add_response, U's message is Q.request; a message that
+               goes to add_response after a request was unprotected on the path is never protected without identifiers.
+    Identifiers that come in through a parameter / the object's state in a function that neither protects nor unprotects a request
+    itself are that function's callers' obligation (noted, not decided).
+    Decided on the modules *as written* by kit.FlowRunner: values are expressions over the entry state with shared call results, so
+    "the same protect call" is object identity; local helpers (nested def, lambda, functools.partial, methods through self,
+    module functions) are executed with Python's binding rules -- a default argument holds the value of the *definition* time, a
+    closure variable the value at the time of the call, a partial's argument the value at the time the partial is made, a
+    parameter the value at the call.  Spelling (helpers or inline, tuple returns, named temporaries, guard order) is immaterial."""
+    prog = ctx.prog
+    W = kit.RawWorld(prog)
+    un_names = params(method_of(prog, CU + "unprotect"))
+    pr_names = params(method_of(prog, CP + "protect"))
+    ctx.need(len(un_names) >= 2 and len(pr_names) >= 2, "protect / unprotect signature changed")
+    sites = {}      # (function, line, col) -> dict(fi, call, kind, bad [], ok count, notes set)
+    refusals = []
+    n_entries = {"client": 0, "server": 0}
+    retry_paths = 0
+
+    def site(kind, fi, call):
+        key = (kind, fi.short, getattr(call, "lineno", 0), getattr(call, "col_offset", 0))
+        if key not in sites:
+            sites[key] = {"fi": fi, "call": call, "kind": kind, "bad": [], "ok": 0, "notes": set()}
+        return sites[key]
+
+    for mname in sorted(prog.modules):
+        if "protect" not in prog.modules[mname].src:
+            continue
+        rm = W.module(mname)
+        memo = {}
+        touching = [fi for fi in rm.all_functions() if _touches(rm, fi.node, memo)]
+        # a touching function that another touching function of the module calls (by name / through self) is executed as part of its caller
+        called = set()
+        for fi in touching:
+            for n in ast.walk(fi.node):
+                if isinstance(n, ast.Call):
+                    if isinstance(n.func, ast.Name) and n.func.id in rm.funcs:
+                        called.add(id(rm.funcs[n.func.id].node))
+                    elif isinstance(n.func, ast.Attribute) and isinstance(n.func.value, ast.Name) and n.func.value.id == kit._selfname(fi) and fi.rawcls:
+                        m = rm.method(fi.rawcls, n.func.attr)
+                        if m is not None and m.node is not fi.node:
+                            called.add(id(m.node))
+        executed = set()
+        # (a function that is called only from places no enumerated path reaches -- an exception handler -- is analysed on its own afterwards)
+        for fi in [f for f in touching if id(f.node) not in called] + [f for f in touching if id(f.node) in called]:
+            if id(fi.node) in called and id(fi.node) in executed:
+                continue
+            pnames = set(kit.local_names_of(fi.node)[0]) & {a.arg for a in ast.walk(fi.node.args) if isinstance(a, ast.arg)}
+            runner = kit.FlowRunner(fi, prog, W, interesting=lambda fn, rm=rm, memo=memo: _touches(rm, fn, memo), for_iters=2)
+            roles = set()
+            for q in runner.paths():
+                calls = [(ev[1], ev[2]) for ev in q.events if ev[0] == "ecall"]
+                req_protects, req_unprotects = [], []
+                for idx, (c, cfi) in enumerate(calls):
+                    if not _is_method_call(c, PAIRING) or _is_super_recv(c):
+                        continue
+                    names = un_names if c.func.attr == "unprotect" else pr_names
+                    msg, ids = _ev_arg(c, names, 0), _ev_arg(c, names, 1)
+                    if msg is None:
+                        refusals.append("%s: `%s` without a message argument" % (cfi.short, _short(c)))
+                        continue
+                    no_ids = ids is None or _is_none_const(ids)
+                    if no_ids and c.func.attr == "protect":
+                        # a request is protected -- unless this function unprotected a request before and hands the result out as its response
+                        sent_as_response = [c2 for c2, _ in calls[idx + 1:] if _is_method_call(c2, ("add_response",))
+                                            and any(_message_of(a) is c for a in list(c2.args) + [kw.value for kw in c2.keywords])]
+                        if req_unprotects and sent_as_response:
+                            roles.add("server")
+                            site("server", cfi, c)["bad"].append("a response is protected without the identifiers of the request it answers")
+                        else:
+                            req_protects.append(c)
+                        continue
+                    if no_ids:
+                        req_unprotects.append(c)
+                        continue
+                    k = _component(ids, 1)
+                    if c.func.attr == "unprotect":
+                        s = site("client", cfi, c)
+                        behind, rroot = _request_behind(msg)
+                        if k is not None and k.func.attr != "protect":
+                            roles.add("client")
+                            s["bad"].append("the identifiers given to unprotect are those returned by `%s`, not those of the request that was protected and sent" % _short(k, 50))
+                            continue
+                        if k is None:
+                            if _root_name(ids) in pnames and not req_protects:
+                                s["notes"].add("identifiers come in through `%s`: the pairing is decided where they are produced" % _short(ids, 40))
+                            else:
+                                refusals.append("%s: cannot trace the identifiers `%s` given to unprotect to a protect call" % (cfi.short, _short(ids)))
+                            continue
+                        roles.add("client")
+                        if behind is None:
+                            refusals.append("%s: cannot trace the message `%s` given to unprotect to the request it was received for" % (cfi.short, _short(msg)))
+                            continue
+                        if len(req_protects) >= 2 and behind is req_protects[-1]:
+                            retry_paths += 1
+                        if behind is k:
+                            s["ok"] += 1
+                        else:
+                            def nth(x):
+                                return ("protect call #%d of the path (line %d)" % (req_protects.index(x) + 1, x.lineno)) if x in req_protects else "`%s`" % _short(x, 50)
+                            s["bad"].append("the message was received for the request protected by %s, the identifiers are those returned by %s (%d request(s) protected on the path)"
+                                            % (nth(behind), nth(k), len(req_protects)))
+                    else:
+                        s = site("server", cfi, c)
+                        if k is not None and k.func.attr != "unprotect":
+                            roles.add("server")
+                            s["bad"].append("the identifiers given to protect are those returned by `%s`, not those obtained by unprotecting the request" % _short(k, 50))
+                            continue
+                        if k is None:
+                            if _root_name(ids) in pnames and not req_unprotects:
+                                s["notes"].add("identifiers come in through `%s`: the pairing is decided where they are produced" % _short(ids, 40))
+                            else:
+                                refusals.append("%s: cannot trace the identifiers `%s` given to protect to the unprotection of a request" % (cfi.short, _short(ids)))
+                            continue
+                        roles.add("server")
+                        u_ids = _ev_arg(k, un_names, 1)
+                        if not (u_ids is None or _is_none_const(u_ids)):
+                            s["bad"].append("the identifiers given to protect come from unprotecting a response, not the request being answered")
+                            continue
+                        u_msg = _ev_arg(k, un_names, 0)
+                        wrong = None
+                        for c2, _ in calls[idx + 1:]:
+                            if _is_method_call(c2, ("add_response",)) and any(_message_of(a) is c for a in list(c2.args) + [kw.value for kw in c2.keywords]):
+                                q_req = ast.Attribute(value=c2.func.value, attr="request", ctx=ast.Load())
+                                if u_msg is not None and chain(u_msg) and chain(q_req) and chain(u_msg) != chain(q_req):
+                                    wrong = "the response handed to `%s.add_response` is protected with the identifiers of `%s`, not of `%s`" % (
+                                        _short(c2.func.value, 30), _short(u_msg, 40), _short(q_req, 40))
+                        if wrong:
+                            s["bad"].append(wrong)
+                        else:
+                            s["ok"] += 1
+            executed |= runner.executed
+            for r in roles:
+                n_entries[r] += 1
+    for key in sorted(sites):
+        s = sites[key]
+        fi, call = s["fi"], s["call"]
+        raw = _raw_call(fi, call)
+        text = stmt_text(raw) if raw is not None else "%s(...)" % call.func.attr
+        for nt in sorted(s["notes"]):
+            ctx.note("%s `%s`: %s" % (fi.short, text, nt))
+        if not s["bad"] and not s["ok"]:
+            continue
+        if s["kind"] == "client":
+            ctx.ob("a response / notification is unprotected with the identifiers of the request it was received for", not s["bad"], fi, raw if raw is not None else fi.node,
+                   detail=s["bad"][0] if s["bad"] else None, construct=text)
+        else:
+            ctx.ob("a response is protected with the identifiers obtained by unprotecting the request it answers", not s["bad"], fi, raw if raw is not None else fi.node,
+                   detail=s["bad"][0] if s["bad"] else None, construct=text)
+    ctx.need(not refusals, "; ".join(sorted(set(refusals))[:3]))
+    ctx.floor("functions that unprotect responses with the identifiers of their own requests", n_entries["client"], 1)
+    ctx.floor("functions that protect responses with the identifiers of the request they unprotected", n_entries["server"], 1)
+    ctx.floor("paths on which a response to a request that was protected again (Echo retry) is unprotected", retry_paths, 1)
+
+
 F_OS = "aiocoap/oscore.py"
 R.seed("C11.a", F_OS, "            uri_host=outer_host,\n", "            uri_host=outer_host,\n            uri_path=message.opt.uri_path,\n", "a Class E option copied to the outer message")
 R.seed("C11.a", F_OS, "        outer_message.payload = payload\n", "        outer_message.payload = plaintext\n", "plaintext sent as the outer payload")
@@ -2143,3 +2453,21 @@ R.seed("C11.e", F_OS, '            if not tail:\n                raise DecodeErr
 R.seed("C11.e", F_OS, "            if not tail:\n", "            if len(tail) < 0:\n", "a length test of the right local that can never fire: the read of the kid context length byte can still raise IndexError")
 R.seed("C11.e", F_OS, '        if option_data == b"":\n            firstbyte = 0\n        else:\n            firstbyte = option_data[0]\n            tail = option_data[1:]\n', "        firstbyte = option_data[0]\n        tail = option_data[1:]\n",
        "an empty OSCORE option raises IndexError")
+# seeds for C11.i (third round: request / response binding at the users of protect / unprotect)
+F_TR = "aiocoap/transports/oscore.py"
+F_SW = "aiocoap/oscore_sitewrapper.py"
+R.seed("C11.i", F_TR, "                wire_request, original_request_seqno = protect(\n                    unprotected_response.opt.echo\n                )\n",
+       "                wire_request, _ = protect(\n                    unprotected_response.opt.echo\n                )\n",
+       "the identifiers of the re-protected request (Echo retry) are dropped: later responses are checked against the first request")
+R.seed("C11.i", F_TR, "                wire_request, original_request_seqno = protect(\n                    unprotected_response.opt.echo\n                )\n\n"
+       "                protected_response = await wire_request.response\n                unprotected_response, _ = secctx.unprotect(\n                    protected_response, original_request_seqno\n                )\n",
+       "                again = lambda r, _ids=original_request_seqno: secctx.unprotect(r, _ids)\n                wire_request, original_request_seqno = protect(\n                    unprotected_response.opt.echo\n                )\n\n"
+       "                protected_response = await wire_request.response\n                unprotected_response, _ = again(protected_response)\n",
+       "the identifiers are bound as a default argument of a callable made before the retry rebinds them")
+R.seed("C11.i", F_TR, "                protected_response = await wire_request.response\n                unprotected_response, _ = secctx.unprotect(\n",
+       "                unprotected_response, _ = secctx.unprotect(\n",
+       "the response to the first request is unprotected again with the identifiers of the second request")
+R.seed("C11.i", F_SW, "            protected_response, _ = sc.protect(message, seqno)\n", "            protected_response, _ = sc.protect(message)\n",
+       "the response is protected without the identifiers of the request it answers")
+R.seed("C11.i", F_SW, "            unprotected, seqno = sc.unprotect(request)\n", "            unprotected, seqno = sc.unprotect(request)\n            _, seqno = sc.protect(unprotected)\n",
+       "the response is protected with identifiers that do not come from unprotecting the request")
